@@ -32,6 +32,20 @@ CHECKS = {
                       "the session ends cleanly; routing-table computation terminates within the unwinding bound.",
         "level_note": _TRUST,
     },
+    "C11": {
+        "pkgs": ["./pkg/netceptor"],
+        "bounds": "one arbitrary first routing message (every field arbitrary, forwarder drawn from {\"\",self,B,C(already connected),D}) against "
+                  "allow-list {none,[B],[D,\"\"]}, optional per-node cost override, arbitrary positive costs; after a correct handshake one or two "
+                  "further routing updates with every field arbitrary; cancellation parked at each blocking point of the establishment and, with "
+                  "one pre-emption, at every visible operation; two simultaneous sessions with one id under 2 pre-emptions",
+        "assumptions": ["backend connection cost > 0 (checked by runProtocol itself)"],
+        "outside": ["more than two simultaneous sessions", "schedules needing more than 2 pre-emptions"],
+        "schedule_harnesses": ["Verif_C11_cancel_during_establishment", "Verif_C11_same_id_race"],
+        "level_text": "Bounded symbolic execution of the real runProtocol (reader/writer/initial-message goroutines as engine threads): a session "
+                      "is established iff the announced id is non-empty, not ours, allowed and not yet connected, else rejected with the node "
+                      "unchanged; misbehaving peers are evicted; whenever a session ends or is cancelled nothing of it is left behind.",
+        "level_note": _TRUST,
+    },
     "C10": {
         "pkgs": ["./pkg/netceptor"],
         "bounds": "step lemma for all 256 budgets, arbitrary routing table (no route / via B / via C / via unconnected X) for source and "
